@@ -17,6 +17,8 @@
 import EasyMl.Lemmas.Numeric
 import EasyMl.Lemmas.WrapperOps
 import EasyMl.Model.TraitReq
+import EasyMl.Lemmas.CheckedInt
+import EasyMl.Props.C19Natural
 
 namespace EasyMl.C19
 open EasyMl EasyMl.Num
@@ -285,6 +287,35 @@ theorem builtin_types_classified :
       satisfies capsFloat usableReal = true ∧ satisfies capsFullNumeric usableReal = false := by
   decide
 
+/-! ### bounded integers: `a − b` is not `a + (−b)`
+
+The reusable checked-integer arithmetic lives in `EasyMl.Model.Numeric` (`checked`, `pAdd pSub pMul
+pDiv`), `EasyMl.Model.WrapperOps` (`arithPlain`) and `EasyMl.Lemmas.CheckedInt` (`pNeg`, `toInt_ofInt`,
+`checked_ok_iff`, `checked_value`); these two statements are why the Trace / Record operator lines at
+`i8/i32/i64` boundary values separate a subtraction from an addition of the negation. -/
+
+theorem checked_sub_ne_add_neg :
+    (outInt .i8 (pSub .i8 (ofInt .i8 (-1)) (ofInt .i8 (-128))) = some 127 ∧
+      outInt .i8 (pNeg .i8 (ofInt .i8 (-128)) >>= fun n => pAdd .i8 (ofInt .i8 (-1)) n) = none) ∧
+    (outInt .i32 (pSub .i32 (ofInt .i32 (-1)) (ofInt .i32 (-2147483648))) = some 2147483647 ∧
+      outInt .i32 (pNeg .i32 (ofInt .i32 (-2147483648)) >>= fun n => pAdd .i32 (ofInt .i32 (-1)) n) = none) ∧
+    (outInt .i64 (pSub .i64 (ofInt .i64 (-1)) (ofInt .i64 (-9223372036854775808))) = some 9223372036854775807 ∧
+      outInt .i64 (pNeg .i64 (ofInt .i64 (-9223372036854775808)) >>= fun n => pAdd .i64 (ofInt .i64 (-1)) n)
+        = none) :=
+  Num.checked_sub_ne_add_neg
+
+theorem checked_sub_eq_add_neg_of_ne_min (t : IntTy) (hsg : t.signed = true) (a b : Val t)
+    (hb : toInt t b ≠ t.minInt) : pSub t a b = (pNeg t b >>= fun n => pAdd t a n) :=
+  Num.checked_sub_eq_add_neg_of_ne_min t hsg a b hb
+
+example : IntTy.signed .i32 = true ∧ toInt .i32 (ofInt .i32 7) ≠ IntTy.minInt .i32 := by decide
+
+/-- a checked operator succeeds exactly when the mathematical result is representable, and then denotes it -/
+theorem checked_exact (t : IntTy) (i : Int) :
+    ((checked t i).isOk = true ↔ (t.minInt ≤ i ∧ i ≤ t.maxInt)) ∧
+      ∀ v, checked t i = .ok v → toInt t v = i :=
+  ⟨checked_ok_iff t i, fun v h => checked_value t i v h⟩
+
 /-! ### floats: always succeed, with the nearest value -/
 
 /-- `from_usize_float!` never fails -/
@@ -306,6 +337,23 @@ theorem roundNE_nearest (p n m' e' : Nat) (hp : 1 ≤ p) (hm : m' < 2 ^ p) :
 theorem roundNE_exact (p n : Nat) (h : n < 2 ^ p) : roundVal (roundNE p n) = n := by
   unfold roundNE
   simp [bitLen_le_of_lt p n h, roundVal]
+
+/-- every count up to and including `2^53` converts to `f64` exactly, every count up to `2^24` to `f32`
+    (beyond that only the nearest value is promised, `roundNE_nearest`) -/
+theorem float_fromUsize_exact_upto :
+    (∀ n, n ≤ 2 ^ 53 → roundVal (roundNE 53 n) = n) ∧ (∀ n, n ≤ 2 ^ 24 → roundVal (roundNE 24 n) = n) := by
+  constructor
+  · intro n hn
+    rcases Nat.lt_or_eq_of_le hn with h | h
+    · exact roundNE_exact 53 n h
+    · subst h; decide
+  · intro n hn
+    rcases Nat.lt_or_eq_of_le hn with h | h
+    · exact roundNE_exact 24 n h
+    · subst h; decide
+
+-- … and not beyond: 2^53 + 1 is not representable
+example : roundVal (roundNE 53 (2 ^ 53 + 1)) = 2 ^ 53 := by decide
 
 /-- a tie between the two nearest values goes to the even significand -/
 theorem roundNE_tie_even (p n : Nat) (hl : p < bitLen n)
